@@ -104,6 +104,22 @@ def run(ctx):
             ctx.note("get(): no ring-buffer length branch found; treating the body as one region")
         else:
             sb, t, arms, d = top
+            # the mixed-excitation branch is the one taken for every non-empty ring buffer (a
+            # one-tap low-pass filter is a filter): len > 0 / len != 0 / len >= 1 / 0 < len
+            def cst(e):
+                return e[1] if e[0] == "c" and isinstance(e[1], int) and not isinstance(e[1], bool) else None
+            lenside = lambda e: "ring_buffer" in show(e) and "len" in show(e)
+            sel_ok = False
+            if d[0] == "bin":
+                op_, l_, r_ = d[1], d[2], d[3]
+                if lenside(r_) and not lenside(l_):
+                    op_, l_, r_ = {"Lt": "Gt", "Le": "Ge", "Gt": "Lt", "Ge": "Le"}.get(op_, op_), r_, l_
+                c_ = cst(r_)
+                sel_ok = lenside(l_) and ((op_ == "Gt" and c_ == 0) or (op_ == "Ne" and c_ == 0) or (op_ == "Ge" and c_ == 1))
+            if sel_ok:
+                ctx.ok("C07-R3", "get(): the low-pass branch is taken exactly when the ring buffer is non-empty (%s)" % show(d)[-60:], g.loc())
+            else:
+                ctx.fail("C07-R3", g.path, "branch selection", "the low-pass (mixed excitation) branch is selected by `%s`, expected ring_buffer.len() > 0: a voice with a short low-pass filter would be rendered without its filter" % show(d)[-80:], g.loc())
             tr = [tg for v, tg in arms if (v is None or v == 1)]
             fa = [tg for v, tg in arms if v == 0]
             regA = {x for x in g.reachable() if g.edge_dominates((sb, tr[0]), x)} if tr else set()
